@@ -11,7 +11,7 @@ Proof. apply alookup_aremove_eq. Qed.
 Lemma fget_fdel_ne f p q : q <> p -> fget (fdel f p) q = fget f q.
 Proof. intros; apply alookup_aremove_ne; auto. Qed.
 
-Ltac dsimpl := cbn [d_fs d_anc d_tick d_open d_events d_x with_fs with_event with_open tick with_failed count_write fst snd] in *.
+Ltac dsimpl := cbn [d_fs d_anc d_tick d_open d_events d_x with_fs with_event with_open tick with_failed count_write note_faildel fst snd] in *.
 
 Ltac inv_pair H := inversion H; subst; clear H.
 
